@@ -139,8 +139,8 @@ def replay(obj):
 LEVEL_TEXT = ('Proof on the grammar regenerated from akn.peg, for every non-empty string of scalar values without newline, every position and any '
               'sufficient fuel: inline+ on the character-by-character escaped string consumes exactly it and builds one (backslash, character) node '
               'per character, none of the ten inline markers (C13_escaped_inlines_parse), and the dict stage reads those nodes back as the single '
-              'text node holding the string (C13_escaped_inlines_literal); at line level, hier_block_element on the escaped string up to the line end succeeds through rule line - every keyword block fails on the leading backslash - and to_dict gives a p whose only child is that text node: a fully escaped line is one paragraph with exactly that text (C13_escaped_line_is_paragraph); in headings, after the " - " separator, rule hier_element_heading_heading reads the escaped string the same way and the heading\'s dict is the single text node holding it (C13_escaped_heading_parses, C13_escaped_heading_literal). The other positions (num, nested inlines, blocks) '
+              'text node holding the string (C13_escaped_inlines_literal); at line level, hier_block_element on the escaped string up to the line end succeeds through rule line - every keyword block fails on the leading backslash - and to_dict gives a p whose only child is that text node: a fully escaped line is one paragraph with exactly that text (C13_escaped_line_is_paragraph); in headings, after the " - " separator, rule hier_element_heading_heading reads the escaped string the same way and the heading\'s dict is the single text node holding it (C13_escaped_heading_parses, C13_escaped_heading_literal); in numbers, rule hier_element_heading_num reads the escaped string after the keyword as one escape node per character and the num of the dict is the string itself (C13_escaped_num_parses, C13_escaped_num_literal). The other positions (nested inlines, blocks) '
               'are decided by the oracle: every keyword and marker x every text position exhaustively, and random strings over that alphabet. '
-              'Partial: the run-of-inlines, whole-line and heading positions are theorems; num, nested inline and block positions are decided by the oracle.')
+              'Partial: the run-of-inlines, whole-line, heading and num positions are theorems; nested inline and block positions are decided by the oracle.')
 LEVEL_NOTE = 'Trusted: Coq kernel (vm_compute on three rule bodies); hand models tied by sampling; translators; extraction+driver.'
 TECHNIQUE = 'Rocq proof by symbolic execution of the PEG interpreter on the generated grammar + fuel monotonicity + exhaustive keyword x position oracle'
